@@ -224,7 +224,38 @@ theorem mem_buildFwdFile {p : FwdPart} {e : KeyId × SeriesId × ValId} :
 /-- what the reader needs of one key's containers: ascending high keys, and — while the lookup table
 is not cumulative — only high keys 0 and 1 -/
 def ContainersOK (cum : Bool) (cs : List Container) : Prop :=
-  highsAsc cs ∧ (cum = false → ∀ c ∈ cs, c.1 < 2)
+  highsAsc cs ∧ (cum = false → ∀ c ∈ cs, c.1 < 2) ∧ (∀ c ∈ cs, ∀ lv ∈ c.2, lv.1 < 65536)
+
+theorem insContainer_lows {high low : Nat} {v : ValId} {cs : List Container} (hl : low < 65536)
+    (h : ∀ c ∈ cs, ∀ lv ∈ c.2, lv.1 < 65536) : ∀ c ∈ insContainer high low v cs, ∀ lv ∈ c.2, lv.1 < 65536 := by
+  induction cs with
+  | nil =>
+    intro c hc lv hlv
+    simp [insContainer] at hc; subst hc
+    simp at hlv; subst hlv; exact hl
+  | cons c0 t ih =>
+    obtain ⟨h0, es⟩ := c0
+    have h0' := h (h0, es) List.mem_cons_self
+    have ht : ∀ c ∈ t, ∀ lv ∈ c.2, lv.1 < 65536 := fun c hc => h c (List.mem_cons_of_mem _ hc)
+    intro c hc lv hlv
+    by_cases h1 : high < h0
+    · simp only [insContainer, h1, ite_true, List.mem_cons] at hc
+      rcases hc with rfl | rfl | hc
+      · simp at hlv; subst hlv; exact hl
+      · exact h0' lv hlv
+      · exact ht c hc lv hlv
+    · by_cases h2 : high = h0
+      · subst h2
+        simp only [insContainer, h1, ite_false, ite_true, List.mem_cons] at hc
+        rcases hc with rfl | hc
+        · rcases mem_insLow.mp hlv with rfl | hlv
+          · exact hl
+          · exact h0' lv hlv
+        · exact ht c hc lv hlv
+      · simp only [insContainer, h1, h2, ite_false, List.mem_cons] at hc
+        rcases hc with rfl | hc
+        · exact h0' lv hlv
+        · exact ih ht c hc lv hlv
 
 def FileOK (cum : Bool) (f : FwdFile) : Prop := ∀ kc ∈ f, ContainersOK cum kc.2
 
@@ -235,7 +266,7 @@ theorem insKey_ok {cum : Bool} {kid : KeyId} {s : SeriesId} {v : ValId} {f : Fwd
     intro kc hkc
     simp [insKey] at hkc
     subst hkc
-    refine ⟨by simp [insContainer, highsAsc], ?_⟩
+    refine ⟨by simp [insContainer, highsAsc], ?_, insContainer_lows (Nat.mod_lt _ (by decide)) (fun c hc => by cases hc)⟩
     intro hc c hcm
     simp [insContainer] at hcm
     subst hcm
@@ -252,12 +283,12 @@ theorem insKey_ok {cum : Bool} {kid : KeyId} {s : SeriesId} {v : ValId} {f : Fwd
       intro kc hkc
       simp only [insKey, ite_true, List.mem_cons] at hkc
       rcases hkc with rfl | hkc
-      · refine ⟨insContainer_asc h0.1, ?_⟩
+      · refine ⟨insContainer_asc h0.1, ?_, insContainer_lows (Nat.mod_lt _ (by decide)) h0.2.2⟩
         intro hc c hcm
         rcases insContainer_highs c hcm with h3 | ⟨c', hc', h3⟩
         · rw [h3]; have := hs hc; try dsimp only [SeriesId] at *
           omega
-        · rw [← h3]; exact h0.2 hc c' hc'
+        · rw [← h3]; exact h0.2.1 hc c' hc'
       · exact ht kc hkc
     · intro kc hkc
       simp only [insKey, hk, ite_false, List.mem_cons] at hkc
@@ -355,7 +386,7 @@ theorem readContainer_spec {cum : Bool} {cs : List Container} (hok : ContainersO
   cases cum with
   | true => exact hc
   | false =>
-    have hlen := asc_bounded_length hok.1 (hok.2 rfl)
+    have hlen := asc_bounded_length hok.1 (hok.2.1 rfl)
     unfold readContainer
     constructor
     · intro c hcm; rw [readFrom_two _ _ _ hlen]; exact hc.1 c hcm
